@@ -40,6 +40,7 @@ type storeEnv struct {
 	put   func(name string, idx desync.Index) ([]image, error) // write path + all images of what was written
 	get   func(name string) (desync.Index, error)              // read path for what put stored
 	feeds []feed
+	hist  *histAccess // nil: the kind keeps no named objects (history_test.go)
 	close func()
 }
 
@@ -133,6 +134,14 @@ func objectEnv(label string, s desync.IndexWriteStore, raw func(name string) ([]
 			return []image{{"object written by " + label + ".StoreIndex", b}}, nil
 		},
 		get: func(name string) (desync.Index, error) { return s.GetIndex(name) },
+		hist: &histAccess{
+			store: s.StoreIndex,
+			get:   s.GetIndex,
+			raw: func(name string) ([]image, error) {
+				b, err := raw(name)
+				return []image{{"the object kept by " + label, b}}, err
+			},
+		},
 		feeds: []feed{{name: label + ".GetIndex", read: func(b []byte) error {
 			if err := plant("m.caibx", b); err != nil {
 				panic("harness: planting: " + err.Error())
@@ -332,6 +341,22 @@ func openHTTP(scratch func() string) (*storeEnv, error) {
 			return append(imgs, image{"GET response body of HTTPIndexHandler", got}), nil
 		},
 		get: func(name string) (desync.Index, error) { return st.GetIndex(name) },
+		hist: &histAccess{
+			store: st.StoreIndex,
+			get:   st.GetIndex,
+			raw: func(name string) ([]image, error) {
+				file, err := os.ReadFile(filepath.Join(dir, name))
+				if err != nil {
+					return nil, err
+				}
+				imgs := []image{{"the file kept by the index server's upstream LocalIndexStore", file}}
+				body, err := rawGet(name)
+				if err != nil {
+					return imgs, err
+				}
+				return append(imgs, image{"the GET response body of HTTPIndexHandler", body}), nil
+			},
+		},
 		feeds: []feed{
 			{name: "RemoteHTTPIndex.GetIndex <- HTTPIndexHandler <- file", read: func(b []byte) error {
 				if err := os.WriteFile(filepath.Join(dir, "m.caibx"), b, 0o644); err != nil {
